@@ -672,3 +672,22 @@ func (r *Run) FinalState() map[string]any {
 	out["pods"] = pods
 	return normalizedAny(out).(map[string]any)
 }
+
+func init() {
+	// VERIF_E1_NOEXCLUDE=all|<finding>[,<finding>] switches exclusions off (to re-establish a
+	// finding or verify a repair).
+	off := os.Getenv("VERIF_E1_NOEXCLUDE")
+	if off == "" {
+		return
+	}
+	for k := range KnownOpen {
+		if off == "all" {
+			KnownOpen[k] = false
+		}
+	}
+	for _, k := range strings.Split(off, ",") {
+		if _, ok := KnownOpen[k]; ok {
+			KnownOpen[k] = false
+		}
+	}
+}
